@@ -153,6 +153,13 @@ class Encoder:
             if s in ("undef", "poison"):
                 return Val(T.const_bv(0, T.fmt_width(FP_TYPES[ty])), T.TRUE if s == "poison" else T.FALSE)
             return Val(parse_fp_const(ty, s))
+        if ty.startswith("{") and s.startswith("{"):
+            from .irparse import split_top, parse_typed_operand
+            fields = []
+            for part in split_top(s.strip()[1:-1]):
+                ft, fv = parse_typed_operand(part)
+                fields.append(self.const(ft, fv, env))
+            return Agg(fields)
         if ty.startswith("{"):
             if s in ("undef", "poison", "zeroinitializer"):
                 ftys = [x.strip() for x in ty.strip("{} ").split(",")]
